@@ -96,6 +96,26 @@ func TestC24_SlotLayoutExhaustive(t *testing.T) {
 		if len(slots) != slotsInBlock || len(bad) != 0 {
 			t.Fatalf("full block holds %d records (bad crc %v), want 66", len(slots), bad)
 		}
+		// remove the record of slot i from the full block: only its 62 bytes (zeroed) and the checksum change
+		if err := reg.Remove(ctx, payloadID(h.LogicalID)); err != nil {
+			t.Fatalf("remove slot %d in full block: %v", i, err)
+		}
+		removed := readSeg(t, e, 1)
+		for _, off := range changed(after, removed) {
+			inSlot := off >= i*slotSize && off < (i+1)*slotSize
+			if !inSlot && off < blockSize-4 {
+				t.Fatalf("full block, removal of the record in slot %d changed byte %d of slot %d", i, off, off/slotSize)
+			}
+		}
+		if !allZero(removed[i*slotSize : (i+1)*slotSize]) {
+			t.Fatalf("removed record of slot %d is not zeroed", i)
+		}
+		if err := reg.Add(ctx, payloadH(h)); err != nil {
+			t.Fatalf("re-add slot %d: %v", i, err)
+		}
+		if !bytes.Equal(readSeg(t, e, 1), after) {
+			t.Fatalf("remove + re-add of the record in slot %d does not give the same block back", i)
+		}
 		// the 67th id of this block must go to a second segment, not overwrite anything
 		extra := sop.Handle{LogicalID: mkID(1, 0, i, 1000), PhysicalIDA: mkID(1, 0, i, 1001)}
 		if err := reg.Add(ctx, payloadH(extra)); err != nil {
@@ -167,6 +187,22 @@ func TestC24_SlotWriteLocality(t *testing.T) {
 				ok := s+1 == at.seg && blk == at.block && (in >= blockSize-4 || (in >= at.slot*slotSize && in < (at.slot+1)*slotSize))
 				if !ok {
 					t.Fatalf("update of id in seg%d block%d slot%d changed byte %d of seg%d (block %d, slot %d)", at.seg, at.block, at.slot, off, s+1, blk, in/slotSize)
+				}
+			}
+		}
+		for s := range before {
+			before[s] = readSeg(t, e, s+1)
+		}
+		if err := reg.Remove(ctx, payloadID(ids[k])); err != nil {
+			t.Fatalf("Remove: %v", err)
+		}
+		for s := range before {
+			after := readSeg(t, e, s+1)
+			for _, off := range changed(before[s], after) {
+				blk, in := off/blockSize, off%blockSize
+				ok := s+1 == at.seg && blk == at.block && (in >= blockSize-4 || (in >= at.slot*slotSize && in < (at.slot+1)*slotSize))
+				if !ok {
+					t.Fatalf("removal of id in seg%d block%d slot%d changed byte %d of seg%d (block %d, slot %d)", at.seg, at.block, at.slot, off, s+1, blk, in/slotSize)
 				}
 			}
 		}
